@@ -22,12 +22,16 @@ def declare_pair(w, P, Q, ld, nbatch, sign=1):
     w.partners[Q] = (P, ld, Fraction(-1))
 
 
+class BlockMatrix(Exception):
+    pass
+
+
 def _matrix_axes(A):
     if A.ndim < 2:
         raise S.ShapeError("matrix contract applied to an array with fewer than 2 axes")
     row, col = A.axes[-2], A.axes[-1]
     if isinstance(row, S.DSum) or isinstance(col, S.DSum):
-        raise S.ShimUnsupported("inverse / determinant of a block matrix")
+        raise BlockMatrix()
     if row.sorts() != col.sorts():
         raise S.ShapeError(f"matrix is not square: {row} x {col}")
     if len(row.comps) != 1:
@@ -77,10 +81,53 @@ def _check_symmetric(w, A, row, col):
     return not K.normalize(K.sub(e1, e2), w.ctx)
 
 
+def _block_logdet(w, A):
+    """GtvLemmas.det_fromBlocks11 / 22 (Schur):  ln det [[A,B],[C,D]] = ln det D + ln det(A - B D^-1 C)
+                                                               = ln det A + ln det(D - C A^-1 B)
+    both are theorems; the pivot that leaves fewer uninterpreted LogDet atoms is used."""
+    row, col = A.axes[-2], A.axes[-1]
+    if not (isinstance(row, S.DSum) and isinstance(col, S.DSum) and len(row.parts) == 2 and row.sorts() == col.sorts()):
+        raise S.ShimUnsupported("determinant of a block matrix that is not 2x2 blocks")
+    n = A.ndim
+
+    def blk(i, j):
+        return S._getitem(S._getitem(A, (Ellipsis, S.IndexArr("parts", parts=[i], size=None), slice(None))),
+                          (Ellipsis, S.IndexArr("parts", parts=[j], size=None)))
+    A11, A12, A21, A22 = blk(0, 0), blk(0, 1), blk(1, 0), blk(1, 1)
+    letters = "abcdefgh"[: n - 2]
+    best = None
+    for pivot in (22, 11):
+        try:
+            if pivot == 22:
+                Dinv, ldD = intern_matrix(w, A22.fresh_copy(), True)
+                schur = A11 - S.einsum(f"{letters}ij,{letters}jk,{letters}kl->{letters}il", A12, Dinv, A21)
+            else:
+                Dinv, ldD = intern_matrix(w, A11.fresh_copy(), True)
+                schur = A22 - S.einsum(f"{letters}ij,{letters}jk,{letters}kl->{letters}il", A21, Dinv, A12)
+            _, ldS = intern_matrix(w, schur.fresh_copy(), False)
+        except (S.ShimUnsupported, BlockMatrix):
+            continue
+        val = ldD + ldS
+        unresolved = len([a for a in K.atoms_of(val.expr) if a.startswith("LD")])
+        if best is None or unresolved < best[0]:
+            best = (unresolved, val, pivot)
+        if unresolved == 0:
+            break
+    if best is None:
+        raise S.ShimUnsupported("block determinant: no usable pivot")
+    w.hints_used.append(f"GtvLemmas.det_fromBlocks{best[2]}")
+    return best[1]
+
+
 def intern_matrix(w, A, want_inverse):
     """returns (inv SymArr or None, logdet SymArr) for matrix array A (already a fresh copy)"""
     ctx = w.ctx
-    row, col = _matrix_axes(A)
+    try:
+        row, col = _matrix_axes(A)
+    except BlockMatrix:
+        if want_inverse:
+            raise S.ShimUnsupported("inverse of a block matrix")
+        return None, _block_logdet(w, A)
     p = K.normalize(A.expr, ctx)
     batch_comps = [c for a in A.axes[:-2] for c in a.comps]
     sa = _single_atom(p)
